@@ -294,7 +294,7 @@ func GenStructPair(t *rapid.T, pf Profile, idx int) (src, dst StructDecl) {
 				typ = a.Ext
 			}
 			g := Getter{Name: gname, Field: back, Type: typ, PtrRecv: rapid.IntRange(0, 3).Draw(t, "gptr") == 0}
-			if rapid.IntRange(0, 9).Draw(t, "gerr") == 0 {
+			if rapid.IntRange(0, 9).Draw(t, "gerr") == 0 || pf.ErrHeavy && rapid.IntRange(0, 2).Draw(t, "gerrHeavy") == 0 {
 				g.RetErr = true
 				g.RetConcreteErr = rapid.IntRange(0, 3).Draw(t, "gerrConcrete") == 0
 			}
@@ -533,6 +533,10 @@ func errGetterMembers(s StructDecl) []member {
 		switch f.Home {
 		case "LInner", "*LInner", "ext.Inner", "*ext.Inner":
 			ms = append(ms, member{f.Name + ".E()", "int"})
+		}
+		switch f.Home {
+		case "LInner", "*LInner":
+			ms = append(ms, member{f.Name + ".CE()", "int"})
 		}
 	}
 	return ms
@@ -790,6 +794,17 @@ func GenProg(t *rapid.T, pf Profile) *Prog {
 	var pairs []pair
 	for i := 0; i < npairs; i++ {
 		s, d := GenStructPair(t, pf, i)
+		pairs = append(pairs, pair{s, d})
+		p.Structs = append(p.Structs, s, d)
+	}
+	if pf.ErrHeavy && rapid.IntRange(0, 2).Draw(t, "concreteErrGetterPair") == 0 {
+		// a source whose methods return (T, error) and (T, *tr.E): the first is a getter that can fail, the second is no
+		// getter at all (its second result is a concrete type, not error), whatever names or notations point at it
+		mk := func(n, h string) Field { return Field{Name: n, Home: h, Kind: "basic"} }
+		s := StructDecl{Pkg: "home", Name: "CES", Fields: []Field{mk("rank_", "int"), mk("score_", "int"), mk("Plain", "int")},
+			Getters: []Getter{{Name: "Rank", Field: "rank_", Type: "int", PtrRecv: rapid.Bool().Draw(t, "cesPtr"), RetErr: true, RetConcreteErr: true},
+				{Name: "Score", Field: "score_", Type: "int", RetErr: true}}}
+		d := StructDecl{Pkg: "home", Name: "CED", Fields: []Field{mk("Rank", "int"), mk("Score", "int"), mk("Plain", "int"), mk("Other", "int")}}
 		pairs = append(pairs, pair{s, d})
 		p.Structs = append(p.Structs, s, d)
 	}
